@@ -232,3 +232,42 @@ Example c16_nonvacuous_here :
   fst (run_sops STK_here ops sstate0) = Ok tt /\
   s_leaked_after_scope STK_here 2 (snd (run_shistory STK_here ops 2 sstate0)) = Ok 0.
 Proof. vm_compute. repeat split; try discriminate; reflexivity. Qed.
+
+(* ---- text side (Mem/StreamText.v: the stream model composed with the transcoder model of C01-C03) ---- *)
+From ST Require Import Mem.StreamText Mem.StreamTextProofs Utf.Spec Utf.Tokens Utf.Model Utf.ProofsC01.
+
+(* to_string() of a stream holding well-formed UTF-8 returns exactly the bytes appended, in every validation
+   mode, and leaves the stream unchanged; to_string(false) is the Latin-1 reading transcoded to UTF-8 *)
+Theorem c16_to_string_wellformed : forall STK st o r m,
+  SInv STK st -> sobjs st o = Some r ->
+  all_lt 256 (scontents st r) = true -> fits (scontents st r) -> WF8 (scontents st r) = true ->
+  s_to_string o true m st = (Ok (scontents st r), st).
+Proof. exact to_string_wellformed. Qed.
+Print Assumptions c16_to_string_wellformed.
+
+Theorem c16_to_string_latin1 : forall STK st o r m,
+  SInv STK st -> sobjs st o = Some r ->
+  s_to_string o false m st = (string_from_latin_1 (Some (scontents st r)), st).
+Proof. exact to_string_latin1. Qed.
+Print Assumptions c16_to_string_latin1.
+
+Theorem c16_to_string_pure : forall this u m st r st', s_to_string this u m st = (r, st') -> st' = st.
+Proof. exact to_string_pure. Qed.
+Print Assumptions c16_to_string_pure.
+
+(* operator<< of UTF-16 / UTF-32 text: on well-formed text it is an append of the standard UTF-8 encoding
+   (so every append theorem above applies); when the conversion throws, the stream store is untouched *)
+Theorem c16_shl_utf16 : forall STK dv o l st, scalars l = true -> fits (enc16 l) ->
+  s_shl_wide STK dv o W16 (enc16 l) st = s_append STK o (enc8 l) st.
+Proof. exact shl_utf16_scalars. Qed.
+Print Assumptions c16_shl_utf16.
+
+Theorem c16_shl_utf32 : forall STK dv o l st, scalars l = true -> fits (enc32 l) ->
+  s_shl_wide STK dv o W32 (enc32 l) st = s_append STK o (enc8 l) st.
+Proof. exact shl_utf32_scalars. Qed.
+Print Assumptions c16_shl_utf32.
+
+Theorem c16_shl_wide_failure_is_identity : forall STK dv this w text e st,
+  to_utf8_of w dv (Some text) = Throw e -> s_shl_wide STK dv this w text st = (Throw e, st).
+Proof. exact shl_wide_failure_is_identity. Qed.
+Print Assumptions c16_shl_wide_failure_is_identity.
